@@ -17,7 +17,8 @@ from vlib.runner import Info, Outside, Reject, Sub, Violation
 ID = "C12"
 RULE = (
     "Programs: one function over 1-4 root buffers (L3/L1 arguments, memref.alloc, memref.get_global of initialised and "
-    "uninitialised globals, dense arith.constant), optionally 4x larger and reached through a tile subview (static tile or tile "
+    "uninitialised globals - one get_global per root or one per access path -, dense arith.constant; arguments also with a "
+    "dynamic first dimension), optionally 4x larger and reached through a tile subview (static tile or tile "
     "number = loop induction variable), chains of 0-3 memref.memory_space_cast / snax.layout_cast (dense and padded TSL targets, "
     "cast back to no layout, identity casts), defined at the function top, at the start of an epoch or per statement / inside "
     "the loop body, feeding 1-9 tagged ops (linalg.generic with and without library_call, dart.operation, dart.schedule, opaque "
@@ -175,33 +176,47 @@ class Case:
             if users:
                 yield users
 
+    @staticmethod
+    def _ancestors(uo, blk):
+        """Ops with regions between the user and the cast's block (innermost first)."""
+        out = []
+        while uo.parent_block() is not blk:
+            uo = uo.parent_op()
+            out.append(uo)
+        return out
+
     def loop_copy_site(self):
-        """Structural feature: some cast value has its first reading user or its last writing user inside an scf.for nested
-        below the cast's own block, and another user outside that loop."""
+        """Structural feature: some cast value has its first reading user or its last writing user inside a loop (any op with a
+        region between the user and the cast's own block) and another user outside that loop."""
         for users in self._cast_users():
+            blk = users[0][2].parent_block()
             rds = [x for x in users if x[3]]
             wrs = [x for x in users if x[4]]
+            anc = {id(x[1]): self._ancestors(x[1], blk) for x in users}
             for site in ([rds[0]] if rds else []) + ([wrs[-1]] if wrs else []):
-                if site[2] is not site[1] and any(x[2] is not site[2] for x in users):
-                    return True
+                for loop in anc[id(site[1])]:
+                    if any(all(a is not loop for a in anc[id(x[1])]) for x in users):
+                        return True
         return False
 
     def writer_before_first_reader(self):
         """Structural feature: some cast value is written by a user that runs before its first reading user (an earlier op, or
-        a later op of a loop around the first reader) while its last writing user is not before the first reader, so
-        the copy-in placed in front of the first reader is not preceded by a copy-out."""
+        any op of a loop around the first reader, one iteration earlier) while the last writing user - behind which the
+        copy-out is placed - does not lie between the two, so the copy-in in front of the first reader is not preceded by a
+        copy-out."""
         for users in self._cast_users():
+            blk = users[0][2].parent_block()
             rds = [x for x in users if x[3]]
             wrs = [x for x in users if x[4]]
             if not rds or not wrs:
                 continue
-            first = rds[0]
-            if wrs[-1][0] < first[0]:
-                continue
-            if any(w[0] < first[0] for w in wrs):
+            first, last = rds[0], wrs[-1]
+            if last[0] >= first[0] and any(w[0] < first[0] for w in wrs):
                 return True
-            if first[2] is not first[1] and any(w[2] is first[2] for w in wrs) and wrs[-1][2] is not first[2]:
-                return True  # back edge: a writer inside the loop statement that holds the first reader, copy-out after it
+            inside = lambda x, loop: any(a is loop for a in self._ancestors(x[1], blk))  # noqa: E731
+            for loop in self._ancestors(first[1], blk):
+                if any(inside(w, loop) for w in wrs) and not inside(last, loop):
+                    return True  # back edge of `loop`: what a writer inside it wrote is not copied out inside it
         return False
 
     def global_transformed_twice(self):
@@ -644,10 +659,10 @@ def _prog_no_const(tier):
 SUBS = [
     Sub("locality", lambda tier: G.program(tier), prop_locality, budget=dict(quick=500, thorough=8000), floor=dict(quick=70, thorough=1100),
         nontrivial_rule="at least one linalg.generic/dart.operation; explicit mode: chain >= 2 or cast read and written; implicit mode: >= 2 ops"),
-    Sub("dataflow", lambda tier: G.program(tier), prop_dataflow, budget=dict(quick=2000, thorough=40000), floor=dict(quick=230, thorough=4500),
+    Sub("dataflow", lambda tier: G.program(tier), prop_dataflow, budget=dict(quick=2000, thorough=30000), floor=dict(quick=230, thorough=3300),
         nontrivial_rule="as locality, at least one tagged op executed, no mismatch of any kind in the case"),
-    Sub("constants", lambda tier: G.constant_case(tier), prop_constants, budget=dict(quick=2500, thorough=40000),
-        exhaustive=G.constant_exhaustive, floor=dict(quick=600, thorough=8000),
+    Sub("constants", lambda tier: G.constant_case(tier), prop_constants, budget=dict(quick=2500, thorough=30000),
+        exhaustive=G.constant_exhaustive, floor=dict(quick=600, thorough=6000),
         nontrivial_rule="constant/global really re-laid-out (no copy left) and the target layout is not row-major"),
     Sub("transpose", lambda tier: st.nothing(), prop_transpose, budget=dict(quick=0, thorough=0), exhaustive=transpose_exhaustive,
         exhaustive_only=True, floor=dict(quick=60, thorough=60), nontrivial_rule="both dimensions > 1"),
